@@ -175,6 +175,16 @@ def run(pid, tier, seed):
                                          ".transpose()" if m["dir"] == "in" else "", m["root"], m["target"], m["entry"], m["meth"],
                                          json.dumps(m["rej"]), json.dumps(m["res"])[:160], ", ".join(mine)),
                                       dict(m, source="tlc-generated-case", tlc_reasons=reasons))
+    # vacuity guard: every action of the step machine is taken (small constants, -coverage 1)
+    cdir = dirs[0]
+    cc = {"Nodes": {1, 2, 3}, "Vals": {1}, "Directed": cdir, "MaxEdges": 2, "QKinds": tla_strs(conf["kinds"]),
+          "QDirs": tla_strs(conf["dirs"]), "QCyc": "{" + ", ".join("TRUE" if x else "FALSE" for x in conf["cyc"]) + "}",
+          "RejMode": '"single"', "NVals": {0, 1}}
+    need = {"StepFrontier"} if set(conf["kinds"]) <= {"bfs", "pfsmin", "pfsmax"} else {"StepStack"} if not set(conf["kinds"]) & {"bfs", "pfsmin", "pfsmax"} else {"StepFrontier", "StepStack"}
+    cov = vlib.action_coverage("MC_Search", vlib.cfg_text(cc, spec="MSpecQuiet", invariants=INVS), "%s/cov" % tag,
+                               ignore={"StepFrontier", "StepStack"} - need)
+    if not need <= set(cov):
+        raise ToolError("vacuous: step actions %s not exercised" % (need - set(cov)))
     # impl -> spec on larger random graphs
     d = os.path.join(vlib.WORK, tag, "rec")
     os.makedirs(d, exist_ok=True)
@@ -230,6 +240,7 @@ def run(pid, tier, seed):
         "rule": "one execution = one (graph, node values, query, entry point, target, closure kind) on one flavour; "
                 "non-trivial = graph has at least one edge; distinct by hash of all of these, summed over flavours",
         "exhaustive": True, "model_drift": drift, "models": models, "flavours": flavours, "recorders": recs,
+        "action_coverage_small_model": cov,
     })
     rep.assumptions += [
         "filters are pure predicates over (source, target, value), modelled as sets of rejected triples",
